@@ -398,3 +398,45 @@ M('C03', 'c03-teardown-stops-at-terminal', 'openhtf/core/test_executor.py',
   "        ret = _more_critical(ret, self._execute_node(node, subtest_rec, True))\n",
   "        ret = _more_critical(ret, self._execute_node(node, subtest_rec, True))\n        if ret == _ExecutorReturn.TERMINAL: break\n",
   'teardown sequence stops at its first terminal node')
+
+# ---------------------------------------------------------------- C04
+M('C04', 'c04-abort-forgotten-in-phase-once', 'openhtf/core/phase_executor.py',
+  "        if self._stopping.is_set() or (abort_requested and abort_requested()):",
+  "        if self._stopping.is_set():",
+  'abort request no longer tested under the phase-thread lock (F5 window reopened)')
+M('C04', 'c04-outcome-not-aborted', 'openhtf/core/test_executor.py',
+  "    if self._abort.is_set():\n      self.logger.debug('Finishing test with outcome ABORTED.')\n      self.running_test_state.abort()\n    elif",
+  "    if False:\n      self.logger.debug('Finishing test with outcome ABORTED.')\n      self.running_test_state.abort()\n    elif",
+  'an aborted run is finalized from the phase outcomes instead of ABORTED')
+M('C04', 'c04-join-instead-of-event', 'openhtf/core/test_executor.py',
+  "    self._finished.wait(timeout)",
+  "    self.join(timeout)",
+  'wait() uses Thread.join again (real SIGINT finalizes early)')
+M('C04', 'c04-second-abort-not-forced', 'openhtf/core/test_executor.py',
+  "      self._full_abort.set()\n      self._stop_phase_executor(force=True)",
+  "      self._full_abort.set()\n      self._stop_phase_executor(force=False)",
+  'second abort does not cancel the running teardown phase')
+M('C04', 'c04-no-kill-on-abort', 'openhtf/core/phase_executor.py',
+  "    if phase_thread.is_alive():\n      phase_thread.kill()\n",
+  "    if phase_thread.is_alive():\n      pass\n",
+  'the running phase body is not asked to terminate')
+M('C04', 'c04-plug-teardown-skipped-on-abort', 'openhtf/core/test_executor.py',
+  "    # Plug teardown does not affect the test outcome.\n    self.running_test_state.plug_manager.tear_down_plugs()",
+  "    # Plug teardown does not affect the test outcome.\n    if not self._abort.is_set(): self.running_test_state.plug_manager.tear_down_plugs()",
+  'plugs not torn down after an abort')
+M('C04', 'c04-test-start-abort-ignored', 'openhtf/core/test_executor.py',
+  "        self._test_start, self._run_phases_with_profiling,\n        abort_requested=self._abort.is_set\n    )",
+  "        self._test_start, self._run_phases_with_profiling\n    )",
+  'test_start may start after an abort returned')
+M('C04', 'c04-stop-flag-not-reset', 'openhtf/core/test_executor.py',
+  "      # Resetting so phase_exec can run teardown phases.\n      phase_exec.reset_stop()",
+  "      # Resetting so phase_exec can run teardown phases.\n      pass",
+  'stop flag stays set: teardown phases of entered groups never run after an abort')
+M('C04', 'c04-teardown-uses-first-abort', 'openhtf/core/test_executor.py',
+  "        abort_requested=(self._full_abort.is_set\n                         if in_teardown else self._abort.is_set),",
+  "        abort_requested=self._abort.is_set,",
+  'teardown phases are cancelled by the first abort already')
+M('C04', 'c04-abort-does-not-stop-phase', 'openhtf/core/test_executor.py',
+  "    self._abort.set()\n    self._stop_phase_executor()",
+  "    self._abort.set()",
+  'first abort only sets the flag; the running body is never asked to terminate')
